@@ -24,13 +24,14 @@ EXPLANATION = (
     "aggregation, defuzzifier some report site must execute exactly when that operator is needed and missing; "
     "need counters are bound by the keyword (Rule.AND / Rule.OR) or defuzzifier class their increments consult; the operators that reach "
     "the runtime tests are the block's own through the whole recursion over the antecedent (P9); every parser of rule text separates tokens "
-    "at any whitespace, as the ` and ` / ` or ` search of readiness in the space-normalised text presupposes (C1-tok)"
+    "at any whitespace, as the ` and ` / ` or ` search of readiness in the space-normalised text presupposes (C1-tok); what decides the need is a "
+    "property of the rule / conclusion at hand - the conclusion's own variable's defuzzifier, the rule's own antecedent text (C1-subj)"
 )
 ASSUMPTIONS = [
     "rules written with whitespace-separated tokens (property precondition); rule blocks have an activation method",
     "readiness concerns the five operator kinds of the property; other causes of exceptions are outside its quantifier",
 ]
-FLOORS = {"C1": 5, "C1-raise": 5, "C1-acc": 1, "C1-deref": 6, "P9": 7, "C1-tok": 6}
+FLOORS = {"C1": 5, "C1-raise": 5, "C1-acc": 1, "C1-deref": 6, "P9": 7, "C1-tok": 6, "C1-subj": 3}
 
 MARKERS = {
     "fuzzylite.rule.Rule.AND": "AND",
@@ -184,6 +185,42 @@ def run(check: Check) -> None:
            "aggregation": lambda e: not e["has_aggregation"] and e["integral"]},
           ["has_defuzzifier", "has_aggregation", "integral"],
           infeasible=lambda e: e["integral"] and not e["has_defuzzifier"])
+    # C1-subj: what decides the need of an operator is a property of the rule / conclusion at hand, not of something left over from
+    # another loop: the defuzzifier examined for the implication is the one of the conclusion's own variable, the text searched for
+    # `and` / `or` is the rule's own antecedent
+    rb_loops = loops_over(r, lambda b: is_path(b, "self.rule_blocks"))
+    if rb_loops:
+        rb_body = cfg.loop_body(rb_loops[0][0])
+        subjects = []
+        for n in rb_body:
+            exprs = list(cfg.exprs_of(n)) if n.kind in ("stmt", "test") else []
+            for e in exprs:
+                for x in ast.walk(e):
+                    if isinstance(x, ast.Call):
+                        t = r.term(x, n)
+                        if t[0] == "call" and t[1] == ("global", "isinstance") and len(t[2]) == 2 and t[2][1] == ("global", "fuzzylite.defuzzifier.IntegralDefuzzifier"):
+                            subjects.append((n, "implication", t[2][0]))
+                    elif isinstance(x, ast.Compare) and len(x.ops) == 1 and isinstance(x.ops[0], (ast.In, ast.NotIn)):
+                        t = r.term(x, n)
+                        if markers_in(t[2][0]) & {"AND", "OR"}:
+                            subjects.append((n, "conjunction" if "AND" in markers_in(t[2][0]) else "disjunction", t[2][1]))
+
+        def own_rule(t: Term) -> bool:
+            return t[0] == "elem" and iter_base(t[1])[0][0] == "attr" and iter_base(t[1])[0][2] == "rules" and \
+                iter_base(t[1])[0][1][0] == "elem" and is_path(iter_base(iter_base(t[1])[0][1][1])[0], "self.rule_blocks")
+
+        for n, kind, subj in subjects:
+            if kind == "implication":
+                ok = subj[0] == "attr" and subj[2] == "defuzzifier" and subj[1][0] == "attr" and subj[1][2] == "variable" and subj[1][1][0] == "elem" and \
+                    (lambda b: b[0] == "attr" and b[2] == "conclusions" and b[1][0] == "attr" and b[1][2] == "consequent" and own_rule(b[1][1]))(iter_base(subj[1][1][1])[0])
+                what = "the defuzzifier examined is the one of the conclusion's own variable"
+            else:
+                ok = subj[0] == "attr" and subj[2] == "text" and subj[1][0] == "attr" and subj[1][2] == "antecedent" and own_rule(subj[1][1])
+                what = "the text searched is the antecedent of the rule at hand"
+            check.require(ok, "C1-subj", f"Engine.is_ready/{kind}-subject", what if ok else
+                          f"whether a rule needs the {kind} operator is decided by `{show(subj)[:80]}`, which is not "
+                          + ("the defuzzifier of the variable the conclusion is about" if kind == "implication" else "the antecedent of the rule at hand")
+                          + " (a value left over from another loop): the need of some rules is misjudged", loc(fn, n))
     # the need quantities accumulate over every rule / every conclusion
     bad = [(name, n, h) for h in cfg.loop_heads() if h.kind == "for" for name, n in non_accumulating_liveouts(cfg, h)]
     for name, n, h in bad:
